@@ -197,8 +197,35 @@ func c06Specificity(r *core.Run, rule string, ro *muxRoles) {
 	}
 	// recursion
 	nRec := 0
+	// an attempt: the recursive call itself, or the call of a per-candidate helper of the matcher's
+	// unit that descends (calls the matcher) - its result is the outcome of trying that candidate
+	inUnit := map[*ssa.Function]bool{}
+	for _, h := range p.Helpers(mn) {
+		inUnit[h] = true
+	}
+	descends := func(h *ssa.Function) bool {
+		seen := map[*ssa.Function]bool{}
+		var walk func(f *ssa.Function) bool
+		walk = func(f *ssa.Function) bool {
+			for _, c := range core.Calls(f) {
+				cal := c.Common().StaticCallee()
+				if cal == mn {
+					return true
+				}
+				if cal != nil && inUnit[cal] && !seen[cal] {
+					seen[cal] = true
+					if walk(cal) {
+						return true
+					}
+				}
+			}
+			return false
+		}
+		return walk(h)
+	}
 	for _, c := range core.Calls(mn) {
-		if c.Common().StaticCallee() != mn {
+		cal := c.Common().StaticCallee()
+		if cal != mn && !(cal != nil && inUnit[cal] && descends(cal)) {
 			continue
 		}
 		nRec++
@@ -784,11 +811,41 @@ func resolveMuxRolesFor(r *core.Run, roleRule string) *muxRoles {
 		}
 		return false
 	}
-	ro.matchNode = one("matchNode", func(fn *ssa.Function) bool {
-		if !hasParamType(fn, "nodeMatch") {
+	// the matcher: takes the match record, is recursive - directly or through per-candidate helpers
+	// that take the record as well - and is entered from outside (by the lookup entry point)
+	reachesSelf := func(fn *ssa.Function) bool {
+		seen := map[*ssa.Function]bool{}
+		var walk func(f *ssa.Function) bool
+		walk = func(f *ssa.Function) bool {
+			for _, c := range core.Calls(f) {
+				cal := c.Common().StaticCallee()
+				if cal == nil || !hasParamType(cal, "nodeMatch") {
+					continue
+				}
+				if cal == fn {
+					return true
+				}
+				if !seen[cal] {
+					seen[cal] = true
+					if walk(cal) {
+						return true
+					}
+				}
+			}
 			return false
 		}
-		return callsStatic(fn, func(c *ssa.Function) bool { return c == fn })
+		return walk(fn)
+	}
+	ro.matchNode = one("matchNode", func(fn *ssa.Function) bool {
+		if !hasParamType(fn, "nodeMatch") || !reachesSelf(fn) {
+			return false
+		}
+		for _, c := range p.CallersOf(fn) {
+			if !hasParamType(core.Outermost(c.Parent()), "nodeMatch") {
+				return true // entered from outside the matcher
+			}
+		}
+		return false
 	})
 	isFetchLike := func(fn *ssa.Function) bool {
 		res := fn.Signature.Results()
@@ -1210,7 +1267,21 @@ func c06NoEarlyFailure(r *core.Run, rule string, ro *muxRoles) {
 	}
 	wildAbsent := func(e edgeCond) bool {
 		ci := core.Cond(e.If.Cond)
-		if ci.Kind != "nilcmp" || !ci.HasFld || ci.Field != ro.nodeWild {
+		if ci.Kind != "nilcmp" {
+			return false
+		}
+		isWild := ci.HasFld && ci.Field == ro.nodeWild
+		if prm, isP := core.Strip(ci.X).(*ssa.Parameter); isP && !isWild {
+			// a per-candidate helper: the candidate it is handed at every call site is the wildcard child
+			vs := paramArgs(p, prm, 0)
+			isWild = len(vs) > 0
+			for _, v := range vs {
+				if f, ok := core.LoadedField(v); !ok || f != ro.nodeWild {
+					isWild = false
+				}
+			}
+		}
+		if !isWild {
 			return false
 		}
 		truth := e.Succ == 0
@@ -1238,8 +1309,33 @@ func c06NoEarlyFailure(r *core.Run, rule string, ro *muxRoles) {
 		return false
 	}
 	n := 0
+	// matcher-level functions: the matcher, and the bool helpers of its unit whose result a
+	// matcher-level function returns as its own (a helper whose result is only branched on
+	// reports one candidate's outcome, not the matcher's)
+	level := map[*ssa.Function]bool{mn: true}
+	for changed := true; changed; {
+		changed = false
+		for _, h := range p.Helpers(mn) {
+			if level[h] || !(h.Signature.Results().Len() == 1 && core.TypeName(h.Signature.Results().At(0).Type()) == "bool") {
+				continue
+			}
+			for _, c := range p.CallersOf(h) {
+				if !level[c.Parent()] || c.Value() == nil {
+					continue
+				}
+				for _, ret := range core.Returns(c.Parent()) {
+					for _, src := range phiSources(ret.Results[0]) {
+						if src.V == c.Value() {
+							level[h] = true
+							changed = true
+						}
+					}
+				}
+			}
+		}
+	}
 	for _, fn := range p.Helpers(mn) {
-		if fn != mn && !(fn.Signature.Results().Len() == 1 && core.TypeName(fn.Signature.Results().At(0).Type()) == "bool" && callsStatic(fn, func(c *ssa.Function) bool { return c == mn })) {
+		if !level[fn] {
 			continue
 		}
 		for _, ret := range core.Returns(fn) {
@@ -1536,12 +1632,39 @@ func c06MountAware(r *core.Run, rule string, ro *muxRoles) {
 			}
 			ok, n := true, 0
 			for _, c := range core.Calls(fn) {
-				if c.Common().StaticCallee() != fn || idx >= len(c.Common().Args) {
+				g := c.Common().StaticCallee()
+				if g == nil {
 					continue
 				}
-				n++
-				if c.Common().Args[idx] != ssa.Value(cd.phi) {
-					ok = false
+				if g == fn {
+					if idx >= len(c.Common().Args) {
+						continue
+					}
+					n++
+					if c.Common().Args[idx] != ssa.Value(cd.phi) {
+						ok = false
+					}
+					continue
+				}
+				// a per-candidate helper that descends: it hands one of its own parameters on as the
+				// mount index of the recursive call; this call must pass the rebound value for it
+				for _, c2 := range core.Calls(g) {
+					if c2.Common().StaticCallee() != fn || idx >= len(c2.Common().Args) {
+						continue
+					}
+					n++
+					gp, isP := c2.Common().Args[idx].(*ssa.Parameter)
+					j := -1
+					if isP {
+						for k, q := range g.Params {
+							if q == gp {
+								j = k
+							}
+						}
+					}
+					if j < 0 || j >= len(c.Common().Args) || c.Common().Args[j] != ssa.Value(cd.phi) {
+						ok = false
+					}
 				}
 			}
 			if n > nRec {
@@ -1605,6 +1728,23 @@ func c06AcceptHasHandler(r *core.Run, rule string, root []*ssa.Function, ro *mux
 				if f, ok := core.LoadedField(lf.V); ok && f == ro.nodeWild {
 					isWild = true
 				}
+			}
+			if _, isPrm := core.Strip(s.node).(*ssa.Parameter); isPrm && !isWild {
+				// the calling helper was itself handed the node (matchFullWild(cur.fullWild, ...))
+				vs := paramArgs(p, s.node, 0)
+				all := len(vs) > 0
+				for _, v := range vs {
+					w := false
+					for _, lf := range valueLeaves(v, nil, 0) {
+						if f, ok := core.LoadedField(lf.V); ok && f == ro.nodeWild {
+							w = true
+						}
+					}
+					if !w {
+						all = false
+					}
+				}
+				isWild = all
 			}
 			if isWild {
 				continue
